@@ -17,41 +17,48 @@ Fixpoint find_first (f : Z -> bool) (l : list Z) : option Z :=
 (* sweep A (C20_SweepA1/A2): first Julian day number j in range with
    getYearMonthDay j invalid, or getJulianDayNumber (getYearMonthDay j) <> j, or an int overflow;
    reported with what the generated functions compute there *)
-Definition cex_jdn : option (Z * (Z * Z * Z) * Z) :=
-  match find_first chk_block (zs 0 220) with
+Definition report_jdn (j : Z) : Z * (Z * Z * Z) * Z :=
+  let ymd := getYearMonthDay j in
+  (j, ymd, getJulianDayNumber (fst (fst ymd)) (snd (fst ymd)) (snd ymd)).
+
+(* (the lists are parameters: a [match] on a closed scrutinee would be evaluated by Coq when the
+   definition is elaborated) *)
+Definition cex_jdn_in (blocks : list Z) : option (Z * (Z * Z * Z) * Z) :=
+  match find_first chk_block blocks with
   | None => None
   | Some q =>
     match find_first (fun r => chk_jdn (jdn_first + 1000 * q + r)) (zs 0 1000) with
     | None => None
-    | Some r =>
-      let j := jdn_first + 1000 * q + r in
-      let '(y, m, d) := getYearMonthDay j in
-      Some (j, (y, m, d), getJulianDayNumber y m d)
+    | Some r => Some (report_jdn (jdn_first + 1000 * q + r))
     end
   end.
+Definition cex_jdn := cex_jdn_in (zs 0 220).
 
 (* sweep B (C20_SweepB1/B2): first valid date (y, m, d) whose day number is not
    jdn_first + (days since 1900-01-01 by the leap rule), or does not map back, or whose weekDay
    is wrong; reported as (y, m, d), expected day number, computed day number, what the computed
    number maps back to, weekDay of it, expected weekday *)
-Definition cex_ymd : option ((Z * Z * Z) * Z * Z * (Z * Z * Z) * Z * Z) :=
-  match find_first (chk_year c1970) (zs 1900 601) with
+Definition report_ymd (y m d cnt : Z) : (Z * Z * Z) * Z * Z * (Z * Z * Z) * Z * Z :=
+  let j := getJulianDayNumber y m d in
+  ((y, m, d), jdn_first + cnt, j, getYearMonthDay j, weekDay j, (4 + (cnt - c1970)) mod 7).
+
+Definition chk_day (y m mb d : Z) : bool :=
+  if d <=? days_in_month y m then chk_ymd c1970 y m d (mb + (d - 1)) else true.
+
+Definition chk_month (y base m : Z) : bool :=
+  forallb (chk_day y m (base + days_before_month y m)) (zs 1 31).
+
+Definition cex_ymd_in (years : list Z) : option ((Z * Z * Z) * Z * Z * (Z * Z * Z) * Z * Z) :=
+  match find_first (chk_year c1970) years with
   | None => None
   | Some y =>
-    let base := days_before_year y in
-    let bad_month m :=
-      let mb := base + days_before_month y m in
-      forallb (fun d => if d <=? days_in_month y m then chk_ymd c1970 y m d (mb + (d - 1)) else true) (zs 1 31) in
-    match find_first bad_month (zs 1 12) with
+    match find_first (chk_month y (days_before_year y)) (zs 1 12) with
     | None => None
     | Some m =>
-      let mb := base + days_before_month y m in
-      match find_first (fun d => if d <=? days_in_month y m then chk_ymd c1970 y m d (mb + (d - 1)) else true) (zs 1 31) with
+      match find_first (chk_day y m (days_before_year y + days_before_month y m)) (zs 1 31) with
       | None => None
-      | Some d =>
-        let cnt := mb + (d - 1) in
-        let j := getJulianDayNumber y m d in
-        Some ((y, m, d), jdn_first + cnt, j, getYearMonthDay j, weekDay j, (4 + (cnt - c1970)) mod 7)
+      | Some d => Some (report_ymd y m d (days_before_year y + days_before_month y m + (d - 1)))
       end
     end
   end.
+Definition cex_ymd := cex_ymd_in (zs 1900 601).
